@@ -45,9 +45,34 @@ func goTargets(p *Prog) map[*ssa.Function]bool {
 
 // goroutineOf returns the innermost enclosing function that is started with `go` (nil: caller's goroutine).
 func goroutineOf(fn *ssa.Function, targets map[*ssa.Function]bool) *ssa.Function {
+	return goroutineOfD(fn, targets, 0)
+}
+
+var c12prog *Prog
+
+func goroutineOfD(fn *ssa.Function, targets map[*ssa.Function]bool, d int) *ssa.Function {
 	for f := fn; f != nil; f = f.Parent() {
 		if targets[f] {
 			return f
+		}
+	}
+	// a named helper called only from code of one goroutine runs in that goroutine
+	if fn != nil && fn.Parent() == nil && c12prog != nil && d < 3 && inlineCandidate(fn) {
+		var g *ssa.Function
+		n := 0
+		for _, cs := range c12prog.CallSites(fn) {
+			if _, isCall := cs.(*ssa.Call); !isCall {
+				return nil
+			}
+			cg := goroutineOfD(cs.Parent(), targets, d+1)
+			if cg == nil || (g != nil && cg != g) {
+				return nil
+			}
+			g = cg
+			n++
+		}
+		if n > 0 {
+			return g
 		}
 	}
 	return nil
@@ -58,6 +83,7 @@ func runC12(p *Prog, r *Report) {
 	r.Min("C12.R2", 8)
 	r.Min("C12.R3", 5)
 	r.Min("C12.R4", 3)
+	c12prog = p
 	targets := goTargets(p)
 	// inventory
 	var chans []*ssa.MakeChan
@@ -718,8 +744,9 @@ func checkGuardedHelpers(p *Prog, r *Report) {
 			if sig.Recv() != nil || sig.Params().Len() != 3 || sig.Results().Len() != 0 || !isContextType(sig.Params().At(0).Type()) {
 				continue
 			}
-			if _, ok := sig.Params().At(1).Type().Underlying().(*types.Chan); !ok {
-				continue
+			ch, ok := sig.Params().At(1).Type().Underlying().(*types.Chan)
+			if !ok || ch.Dir() == types.RecvOnly || !types.AssignableTo(sig.Params().At(2).Type(), ch.Elem()) {
+				continue // not a (ctx, sendable chan, value) helper
 			}
 			n++
 			g := SummGuardedSend(fn)
